@@ -11,14 +11,17 @@ package PKG
 
 import (
 	"io"
+	"sync"
 )
 
 // vxPipeEnd: underlying reader (delivers a fixed byte stream, one byte per Read, then
 // blocks until closed) and underlying writer (records what it receives).
 type vxSrc struct {
-	data   []byte
-	off    int
-	closed chan struct{}
+	data     []byte
+	off      int
+	closed   chan struct{}
+	mu       sync.Mutex
+	isClosed bool
 }
 
 func (s *vxSrc) Read(p []byte) (int, error) {
@@ -32,11 +35,13 @@ func (s *vxSrc) Read(p []byte) (int, error) {
 }
 
 func (s *vxSrc) Close() error {
-	select {
-	case <-s.closed:
-	default:
+	// safe for concurrent use, like the Close of a real connection
+	s.mu.Lock()
+	if !s.isClosed {
+		s.isClosed = true
 		close(s.closed)
 	}
+	s.mu.Unlock()
 	return nil
 }
 
@@ -99,10 +104,17 @@ func VxC41() {
 			}
 		}
 	}()
-	if vxParam("CLOSE") == 1 {
+	if vxParam("CLOSE") >= 1 {
 		go func() { // closer
 			c.Close()
 			closeReturned = true
+		}()
+	}
+	closeReturned2 := vxParam("CLOSE") < 2
+	if vxParam("CLOSE") == 2 {
+		go func() { // a second, concurrent closer
+			c.Close()
+			closeReturned2 = true
 		}()
 	}
 	vxQuiesce()
@@ -131,8 +143,8 @@ func VxC41() {
 			j++
 		}
 	}
-	if vxParam("CLOSE") == 1 {
-		vxAssert(closeReturned, "Close did not return")
+	if vxParam("CLOSE") >= 1 {
+		vxAssert(closeReturned && closeReturned2, "Close did not return")
 		// every Read or Write pending or started after Close returns (with end of file)
 		for i := 0; i < W; i++ {
 			vxAssert(wdone[i], "a Write is still blocked after Close returned")
